@@ -32,6 +32,8 @@ func checkC11(c *Ctx) {
 	c.R.Floor("F6.gate", 3)
 	c.R.Floor("F7.read", 1)
 	c.R.Floor("F8.args", 1)
+	c.ruleDefinitionAttrs("F12.def")
+	c.R.Floor("F12.def", 8)
 }
 
 func checkC12(c *Ctx) {
@@ -83,6 +85,8 @@ func checkC12(c *Ctx) {
 	c.R.Floor("E.pure", 5)
 	c.R.Floor("F9.truncate", 1)
 	c.R.Floor("F10.strip", 1)
+	// the store strips the descriptor only if the descriptor decoder accepts it: it must accept every legal timestamp
+	c.ruleTimeRange("G17.time", "efi/signature.ReadEFIVariableAuthencation2")
 	c.R.Floor("F11.fresh", 1)
 }
 
@@ -482,6 +486,72 @@ func (c *Ctx) ruleStrip(fn *ssa.Function, want map[string]bool) {
 		}
 	}
 	c.R.Check(pOK, "F10.strip", fname, "payload-after-descriptor", c.IPos(strip), "the stored value is decoded from the bytes that follow the descriptor in the same buffer", pDet)
+	// once the descriptor decoded, what goes to the store is the payload on every path:
+	// no further condition may send the original value (descriptor included) there
+	tP := paramByNamed(fn, M+"/efivar.Marshallable")
+	e, kept := errValue(strip)
+	if sfr != dv.root || tP == nil || !kept || e == nil {
+		c.R.Infof("F10.strip", fname, "always-payload", c.IPos(strip), "not decided for this shape: the descriptor is decoded in a helper or its error is not tested in "+fname)
+		return
+	}
+	var succTargets []*ssa.BasicBlock
+	for _, b := range fn.Blocks {
+		if len(b.Succs) != 2 {
+			continue
+		}
+		ifi, ok := b.Instrs[len(b.Instrs)-1].(*ssa.If)
+		if !ok {
+			continue
+		}
+		v, nilWhenTrue, ok := ir.NilCheck(ifi.Cond)
+		if !ok || !sameErrValue(v, e) {
+			continue
+		}
+		if nilWhenTrue {
+			succTargets = append(succTargets, b.Succs[0])
+		} else {
+			succTargets = append(succTargets, b.Succs[1])
+		}
+	}
+	var stores []*ssa.Call
+	instrsOf(fn, func(i ssa.Instruction) {
+		call, ok := i.(*ssa.Call)
+		if !ok {
+			return
+		}
+		if call.Call.IsInvoke() && call.Call.Method.Name() == "WriteVar" {
+			stores = append(stores, call)
+		} else if cal := ir.Callee(call); cal != nil && cal != fn && cal.Name() == "WriteVar" {
+			stores = append(stores, call)
+		}
+	})
+	if len(succTargets) == 0 || len(stores) != 1 {
+		c.R.Infof("F10.strip", fname, "always-payload", c.IPos(strip), "not decided for this shape: the success edge of the descriptor decode or the single store call is not identified")
+		return
+	}
+	bad := ""
+	var walk func(v ssa.Value, depth int)
+	walk = func(v ssa.Value, depth int) {
+		ph, isPhi := v.(*ssa.Phi)
+		if !isPhi || depth > 4 {
+			return
+		}
+		for k, ev := range ph.Edges {
+			if ir.StripIface(ev) == ssa.Value(tP) || ev == ssa.Value(tP) {
+				pred := ph.Block().Preds[k]
+				for _, st := range succTargets {
+					seen, prev := ir.Reach(fn, st, nil)
+					if seen[pred.Index] {
+						bad = "after the descriptor decoded successfully the caller's value, descriptor included, still reaches the store along " + ir.PathTo(fn, prev, st.Index, pred.Index, c.Pos)
+					}
+				}
+				continue
+			}
+			walk(ev, depth+1)
+		}
+	}
+	walk(stores[0].Call.Args[len(stores[0].Call.Args)-1], 0)
+	c.R.Check(bad == "", "F10.strip", fname, "always-payload", c.IPos(stores[0]), "whenever the descriptor decodes, the payload (and not the signed update) is what is stored", bad)
 }
 
 // globalStringSet: m is the load of a package-level map[string]bool that is
@@ -553,4 +623,155 @@ func (c *Ctx) globalStringSet(m ssa.Value) (map[string]bool, bool) {
 		}
 	})
 	return out, ok && len(out) > 0
+}
+
+// ruleDefinitionAttrs (F12.def): the typed accessors hand the variable store a
+// definition whose required attributes are the ones of the definitions table
+// (package efivar). A definition assembled by hand without the attributes asks
+// for the empty mask, and the attribute gate of the read path lets every
+// stored mask through.
+func (c *Ctx) ruleDefinitionAttrs(rule string) int {
+	efivarPkg := M + "/efivar"
+	n := 0
+	for _, fn := range c.P.LibFunctions() {
+		if fn.Pkg == nil || fn.Pkg.Pkg.Path() != M+"/efivarfs" || fn.Signature.Recv() == nil || fn.Parent() != nil || fn.Synthetic != "" {
+			continue
+		}
+		if !strings.Contains(fn.Signature.Recv().Type().String(), "Efivarfs") {
+			continue
+		}
+		dv := c.deepViewOf(fn, 3)
+		var origin func(v ssa.Value, fr *frame, depth int) string
+		fromTable := func(v ssa.Value, fr *frame) string {
+			r := dv.resolve(ir.StripConv(v), fr)
+			if k, isK := r.v.(*ssa.Const); isK {
+				if isZeroConst(k) {
+					return "zero"
+				}
+				return "unknown"
+			}
+			for x := range c.sliceOf(r.v) {
+				if g, ok := x.(*ssa.Global); ok && g.Pkg != nil && (g.Pkg.Pkg.Path() == efivarPkg || strings.HasSuffix(g.Pkg.Pkg.Path(), "/efi/attributes")) {
+					return "table"
+				}
+			}
+			return "unknown"
+		}
+		join := func(a, b string) string {
+			switch {
+			case a == "":
+				return b
+			case a == b:
+				return a
+			case a == "zero" || b == "zero":
+				return "zero"
+			}
+			return "unknown"
+		}
+		origin = func(v ssa.Value, fr *frame, depth int) string {
+			if depth > 8 {
+				return "unknown"
+			}
+			r := dv.resolve(v, fr)
+			switch x := r.v.(type) {
+			case *ssa.Parameter:
+				return "param"
+			case *ssa.Const:
+				return "zero"
+			case *ssa.UnOp:
+				if x.Op != token.MUL {
+					return "unknown"
+				}
+				switch a := x.X.(type) {
+				case *ssa.Global:
+					if a.Pkg != nil && a.Pkg.Pkg.Path() == efivarPkg {
+						return "table"
+					}
+				case *ssa.Alloc:
+					fields, out := 0, ""
+					for _, rf := range *a.Referrers() {
+						fa, ok := rf.(*ssa.FieldAddr)
+						if !ok {
+							continue
+						}
+						for _, rr := range *fa.Referrers() {
+							if st, ok := rr.(*ssa.Store); ok && st.Addr == ssa.Value(fa) {
+								fields++
+								if ir.FieldID(fa) == efivarPkg+".Efivar.Attributes" {
+									out = join(out, fromTable(st.Val, r.fr))
+								}
+							}
+						}
+					}
+					if out != "" {
+						return out
+					}
+					whole := ""
+					dv.eachStoreTo(a, r.fr, func(st *ssa.Store, f *frame) { whole = join(whole, origin(st.Val, f, depth+1)) })
+					if whole != "" {
+						return whole
+					}
+					if fields > 0 {
+						return "zero"
+					}
+				}
+			case *ssa.Call:
+				if child := dv.frameOfCall(r.fr, x); child != nil {
+					out := ""
+					for _, ret := range ir.Returns(child.fn) {
+						if len(ret.Results) > 0 {
+							out = join(out, origin(effectiveResult(child.fn, ret, 0), child, depth+1))
+						}
+					}
+					if out != "" {
+						return out
+					}
+				}
+			case *ssa.Phi:
+				out := ""
+				for _, e := range x.Edges {
+					out = join(out, origin(e, r.fr, depth+1))
+				}
+				return out
+			}
+			return "unknown"
+		}
+		counts := map[string]int{}
+		instrsOf(fn, func(i ssa.Instruction) {
+			call, ok := i.(ssa.CallInstruction)
+			if !ok {
+				return
+			}
+			var mname string
+			if call.Common().IsInvoke() {
+				mname = call.Common().Method.Name()
+			} else if cal := ir.Callee(call); cal != nil {
+				mname = cal.Name()
+			}
+			if mname != "GetVar" && mname != "WriteVar" && mname != "GetVarWithAttributes" {
+				return
+			}
+			for _, a := range ir.CallArgs(call) {
+				if ir.NamedTypeID(a.Type()) != efivarPkg+".Efivar" {
+					continue
+				}
+				o := origin(a, dv.root, 0)
+				if o == "param" {
+					continue
+				}
+				n++
+				key := ordinalKey(counts, name(fn)+":definition")
+				construct := strings.TrimPrefix(key, name(fn)+":")
+				switch o {
+				case "table":
+					c.R.Okf(rule, name(fn), construct, c.IPos(i), "the variable definition handed to the store carries the attributes of the definitions table")
+				case "zero":
+					c.R.Violf(rule, name(fn), construct, c.IPos(i), "the variable definition handed to the store carries the attributes of the definitions table", "the definition is assembled without attributes: the accessor asks for the empty mask, so the attribute gate of the read path accepts whatever mask is stored")
+				default:
+					c.R.Infof(rule, name(fn), construct, c.IPos(i), "not decided for this shape: where the attributes of the variable definition come from is not evaluated")
+				}
+			}
+		})
+	}
+	return n
 }
